@@ -1,4 +1,7 @@
-(** Hand model of src/tensora/desugar/_desugar_expression.py (desugar_assignment) and
+(** Hand model of src/tensora/desugar/_desugar_expression.py (desugar_assignment, as repaired by
+    /repo 51a0a5b: a contraction is hoisted over a sum only when every additive term of both
+    sides carries the index; a product whose shared contraction index has no single place is
+    distributed first) and
     src/tensora/desugar/_index_dimensions.py (index_dimensions).
 
     Python [set[str]] values are duplicate-free lists; every *iteration* of a set goes through
@@ -29,18 +32,130 @@ Definition sdiff (a b : list string) : list string := filter (fun x => negb (sme
 Definition wrap (l : list string) (e : dexpr) : dexpr :=
   fold_left (fun out i => DContract i out) l e.
 
+(** [carried_by_every_term(self, index)]: every additive term of the expanded (sum of products)
+    expression has the index *)
+Fixpoint carried_by_every_term (e : expr) (index : string) : bool :=
+  match e with
+  | ETensor t => smem index (t_indexes t)
+  | EAdd l r | ESubtract l r => carried_by_every_term l index && carried_by_every_term r index
+  | EMultiply l r => carried_by_every_term l index || carried_by_every_term r index
+  | EInteger _ | EFloat _ => false
+  end.
+
+(** the factors of an expanded term are leaves of the sugar tree *)
+Inductive leaf : Type :=
+  | LInteger (v : Z)
+  | LFloat (v : Z)
+  | LTensor (t : tref).
+
+Definition leaf_indexes (f : leaf) : list string :=
+  match f with LTensor t => t_indexes t | _ => [] end.
+
+(** one term of the expansion: negated?, and its non-empty list of factors (first, rest) *)
+Definition term : Type := (bool * (leaf * list leaf))%type.
+
+Definition term_factors (t : term) : list leaf := fst (snd t) :: snd (snd t).
+
+(** [additive_terms(self)]: the sum-of-products expansion, left to right *)
+Fixpoint additive_terms (e : expr) : list term :=
+  match e with
+  | EInteger v => [(false, (LInteger v, []))]
+  | EFloat v => [(false, (LFloat v, []))]
+  | ETensor t => [(false, (LTensor t, []))]
+  | EAdd l r => additive_terms l ++ additive_terms r
+  | ESubtract l r =>
+      additive_terms l ++ map (fun t : term => (negb (fst t), snd t)) (additive_terms r)
+  | EMultiply l r =>
+      flat_map (fun lt : term =>
+        map (fun rt : term =>
+               (xorb (fst lt) (fst rt),
+                (fst (snd lt), snd (snd lt) ++ term_factors rt)))
+            (additive_terms r))
+        (additive_terms l)
+  end.
+
+(** [desugar_expression(factor, set(), ids)] for a leaf: nothing to contract, no set iterated *)
+Definition desugar_leaf (f : leaf) (next : nat) : dexpr * nat :=
+  match f with
+  | LInteger v => (DInteger v, next)
+  | LFloat v => (DFloat v, next)
+  | LTensor t => (DTensor next (t_name t) (t_indexes t), S next)
+  end.
+
+(** [reduce(desugar.Multiply, [desugar_expression(factor, set(), ids) for factor in factors])] *)
+Fixpoint multiply_factors (acc : dexpr) (fs : list leaf) (next : nat) : dexpr * nat :=
+  match fs with
+  | [] => (acc, next)
+  | f :: rest => let '(d, n) := desugar_leaf f next in multiply_factors (DMultiply acc d) rest n
+  end.
+
+(** [output = term if output is None else Add(output, term)] over a list of terms.  The
+    expansion is never empty (proofs/DesugarOrder.v, [additive_terms_nonempty]); the [[]] case
+    stands for Python's [None] and is unreachable. *)
+Definition sum_terms (ds : list dexpr) : dexpr :=
+  match ds with
+  | [] => DInteger 0
+  | d :: rest => fold_left DAdd rest d
+  end.
+
+(** the place of the set iterated for the [k]-th term of a distributed product at [pth] *)
+Definition term_site (pth : path) (k : nat) : path := repeat true k ++ false :: pth.
+
 Section Desugar.
   Variable ord : path -> list string -> list string.
   Variable ordi : path -> path -> list string -> list string.
 
-  (** the shared body of desugar_add / desugar_subtract / desugar_multiply *)
-  Definition contract_split (pth : path) (l r : expr) (contract : list string)
+  (** [left_indexes], [right_indexes], [left_indexes.intersection(right_indexes)] *)
+  Definition shared_indexes (pth : path) (l r : expr) (contract : list string)
     : list string * list string * list string :=
     let left_indexes := sinter (akeys (index_participants (ordi pth) (false :: pth) l)) contract in
     let right_indexes := sinter (akeys (index_participants (ordi pth) (true :: pth) r)) contract in
-    let intersection_indexes := sinter left_indexes right_indexes in
+    (left_indexes, right_indexes, sinter left_indexes right_indexes).
+
+  (** desugar_add / desugar_subtract: hoist only the indexes every term of both sides carries *)
+  Definition contract_split_add (pth : path) (l r : expr) (contract : list string)
+    : list string * list string * list string :=
+    let '(left_indexes, right_indexes, shared) := shared_indexes pth l r contract in
+    let intersection_indexes :=
+      filter (fun i => carried_by_every_term l i && carried_by_every_term r i) shared in
     (sdiff left_indexes intersection_indexes, sdiff right_indexes intersection_indexes,
      intersection_indexes).
+
+  (** desugar_multiply, when it does not distribute *)
+  Definition contract_split_mul (pth : path) (l r : expr) (contract : list string)
+    : list string * list string * list string :=
+    let '(left_indexes, right_indexes, shared) := shared_indexes pth l r contract in
+    (sdiff left_indexes shared, sdiff right_indexes shared, shared).
+
+  (** [all(carried_by_every_term(left, i) or carried_by_every_term(right, i) for i in shared)] *)
+  Definition product_has_a_place (pth : path) (l r : expr) (contract : list string) : bool :=
+    let '(_, _, shared) := shared_indexes pth l r contract in
+    forallb (fun i => carried_by_every_term l i || carried_by_every_term r i) shared.
+
+  (** one round of the loop of desugar_distributed *)
+  Definition desugar_term (site : path) (contract : list string) (t : term) (next : nat)
+    : dexpr * nat :=
+    let '(d0, n0) := desugar_leaf (fst (snd t)) next in
+    let '(body, n1) := multiply_factors d0 (snd (snd t)) n0 in
+    let term_indexes := sdedup (flat_map leaf_indexes (term_factors t)) in
+    let contracted := wrap (ord site (sinter term_indexes contract)) body in
+    (if fst t then DMultiply (DInteger (-1)) contracted else contracted, n1).
+
+  Fixpoint desugar_terms (pth : path) (k : nat) (contract : list string) (ts : list term)
+           (next : nat) : list dexpr * nat :=
+    match ts with
+    | [] => ([], next)
+    | t :: rest =>
+        let '(d, n) := desugar_term (term_site pth k) contract t next in
+        let '(ds, n') := desugar_terms pth (S k) contract rest n in
+        (d :: ds, n')
+    end.
+
+  (** [desugar_distributed(self, contract_indexes, ids)] *)
+  Definition desugar_distributed (pth : path) (e : expr) (contract : list string) (next : nat)
+    : dexpr * nat :=
+    let '(ds, n) := desugar_terms pth 0 contract (additive_terms e) next in
+    (sum_terms ds, n).
 
   (** [desugar_expression(self, contract_indexes, ids)]; [next] is the state of [ids = count()] *)
   Fixpoint desugar_expression (pth : path) (e : expr) (contract : list string) (next : nat)
@@ -50,20 +165,24 @@ Section Desugar.
     | EFloat v => (DFloat v, next)
     | ETensor t => (wrap (ord pth contract) (DTensor next (t_name t) (t_indexes t)), S next)
     | EAdd l r =>
-        let '(cl, cr, inter) := contract_split pth l r contract in
+        let '(cl, cr, inter) := contract_split_add pth l r contract in
         let '(l', n1) := desugar_expression (false :: pth) l cl next in
         let '(r', n2) := desugar_expression (true :: pth) r cr n1 in
         (wrap (ord pth inter) (DAdd l' r'), n2)
     | ESubtract l r =>
-        let '(cl, cr, inter) := contract_split pth l r contract in
+        let '(cl, cr, inter) := contract_split_add pth l r contract in
         let '(l', n1) := desugar_expression (false :: pth) l cl next in
         let '(r', n2) := desugar_expression (true :: pth) r cr n1 in
         (wrap (ord pth inter) (DAdd l' (DMultiply (DInteger (-1)) r')), n2)
     | EMultiply l r =>
-        let '(cl, cr, inter) := contract_split pth l r contract in
-        let '(l', n1) := desugar_expression (false :: pth) l cl next in
-        let '(r', n2) := desugar_expression (true :: pth) r cr n1 in
-        (wrap (ord pth inter) (DMultiply l' r'), n2)
+        if product_has_a_place pth l r contract then
+          let '(cl, cr, inter) := contract_split_mul pth l r contract in
+          let '(l', n1) := desugar_expression (false :: pth) l cl next in
+          let '(r', n2) := desugar_expression (true :: pth) r cr n1 in
+          (wrap (ord pth inter) (DMultiply l' r'), n2)
+        else
+          (* some term of each factor lacks a shared contraction index: distribute first *)
+          desugar_distributed pth (EMultiply l r) contract next
     end.
 
   Definition desugar_assignment (a : assignment) : dassignment :=
